@@ -102,6 +102,11 @@ type c17xWorld struct {
 	actors []*xActor
 	oper   *xActor
 	rt     map[string]*simChan
+	// metaHist: every routing row the FSM has stored per channel, oldest first (what a
+	// stale "authoritative" read - a deposed slot leader answering from its local DB -
+	// can still return)
+	metaHist map[string][]rtMeta
+	cfgReload int
 	faults bool
 	cfgErr, cfgStale, cfgLose, cfgDup, cfgCrash, cfgAbort, cfgWriter int
 
@@ -114,7 +119,7 @@ func runC17exec(t *testing.T, r *simkit.Run) {
 	dropPools()
 	simkit.Bubble(t, r, func() {
 		base := &c17World{r: r, tp: r.Tape, model: newMigModel(), cutoverDone: map[string]string{}, rewound: map[string]string{}}
-		w := &c17xWorld{c17World: base, sim: simkit.NewWorld(r), rt: map[string]*simChan{}}
+		w := &c17xWorld{c17World: base, sim: simkit.NewWorld(r), rt: map[string]*simChan{}, metaHist: map[string][]rtMeta{}}
 		defer func() {
 			w.sim.CloseAll(xCrash)
 			simkit.Wait()
@@ -332,10 +337,6 @@ func newerView(cur, cand rtMeta) bool {
 func (w *c17xWorld) applyViewNow(chID string, node uint64, meta rtMeta) {
 	n := w.simNode(chID, node)
 	if !n.has || newerView(n.view, meta) {
-		if !n.has {
-			// a new replica starts empty
-			n.leo = 0
-		}
 		if meta.Leader == node && (!n.has || n.view.Leader != node) && w.faults {
 			n.warming = true
 		}
@@ -370,6 +371,25 @@ func (w *c17xWorld) syncRuntime(all bool) {
 	}
 }
 
+// replicate: every loaded replica of the channel catches up with the longest log.
+func (w *c17xWorld) replicate(chID string) {
+	sc := w.rt[chID]
+	if sc == nil {
+		return
+	}
+	var top uint64
+	for _, id := range simNodeIDs(sc) {
+		if sc.nodes[id].leo > top {
+			top = sc.nodes[id].leo
+		}
+	}
+	for _, id := range simNodeIDs(sc) {
+		if n := sc.nodes[id]; n.has {
+			n.leo = top
+		}
+	}
+}
+
 func simNodeIDs(sc *simChan) []uint64 {
 	ids := make([]uint64, 0, len(sc.nodes))
 	for id := range sc.nodes {
@@ -377,6 +397,76 @@ func simNodeIDs(sc *simChan) []uint64 {
 	}
 	sort.Slice(ids, func(i, j int) bool { return ids[i] < ids[j] })
 	return ids
+}
+
+func (w *c17xWorld) noteMeta(c chanRef) {
+	m := w.readMeta(c)
+	if m == nil {
+		return
+	}
+	h := w.metaHist[c.id]
+	if len(h) == 0 || !rtEqual(&h[len(h)-1], m) {
+		w.metaHist[c.id] = append(h, refNormalize(*m))
+	}
+}
+
+// runtimeReload: a node loses its channel runtime (idle eviction of a fenced, hence
+// idle, channel; or a process restart) and, in half of the cases, activates it again
+// right away from what its metadata resolver returns. The resolver bypasses the
+// service-level metadata floor, and "authoritative" reads are served by whichever
+// node believes it leads the slot, without a lease or read-index check
+// (pkg/slot/proxy/authoritative_rpc.go shouldServeSlotLocally), so a deposed slot
+// leader can hand out an older row: the runtime then reports older epochs than the
+// metadata an executor has just applied to it.
+func (w *c17xWorld) runtimeReload() {
+	tp, r := w.tp, w.r
+	c := w.chans[tp.Intn(len(w.chans))]
+	sc := w.rt[c.id]
+	ids := simNodeIDs(sc)
+	var loaded []uint64
+	for _, id := range ids {
+		if sc.nodes[id].has {
+			loaded = append(loaded, id)
+		}
+	}
+	if len(loaded) == 0 {
+		return
+	}
+	node := loaded[tp.Intn(len(loaded))]
+	// the interesting moment is between an acknowledged apply-meta and the probe that
+	// follows it: prefer the node a parked probe is addressed to
+	atProbe := false
+	for _, p := range w.sim.Pending() {
+		x := p.Info.(*xCall)
+		if x.kind != "probe" {
+			continue
+		}
+		if pc, ok := w.model.chans[x.chID]; ok && w.rt[x.chID] != nil && w.rt[x.chID].nodes[x.node] != nil && w.rt[x.chID].nodes[x.node].has && tp.Intn(3) != 0 {
+			c, sc, node, atProbe = pc, w.rt[x.chID], x.node, true
+			r.Probe("runtime_reload_at_parked_probe")
+		}
+		break
+	}
+	n := sc.nodes[node]
+	h := w.metaHist[c.id]
+	var evict bool
+	if atProbe {
+		// there an eviction alone only makes the probe fail (channel not found)
+		evict = tp.Intn(4) == 0
+	} else {
+		evict = tp.Intn(2) == 0
+	}
+	if evict || len(h) < 2 {
+		n.has, n.warming = false, false
+		r.Fault("runtime_evicted")
+		r.Logf("runtime: %s@%d is evicted / restarts (its log stays on disk)", c.id, node)
+		return
+	}
+	back := 1 + tp.Intn(min(3, len(h)-1))
+	old := h[len(h)-1-back]
+	n.view, n.warming = old, false
+	r.Fault("runtime_reloaded_from_stale_read")
+	r.Logf("runtime: %s@%d is evicted and re-activated from a stale metadata read (%d versions old: ce=%d le=%d L=%d fv=%d)", c.id, node, back, old.ChannelEpoch, old.LeaderEpoch, old.Leader, old.WriteFenceVersion)
 }
 
 // clientAppends: every node that believes it leads and sees no fence accepts writes.
@@ -642,6 +732,7 @@ func (w *c17xWorld) deliver(x *xCall) error {
 		r.State("c17exec", len(active), ph, st, postM != nil && postM.WriteFenceToken != "")
 	}
 	w.compareState(fmt.Sprintf("after index %d", w.index))
+	w.noteMeta(c.ch)
 	if refused {
 		return metadb.ErrStaleMeta // what the slot proposer reports for a stale_meta answer
 	}
@@ -685,7 +776,10 @@ func (w *c17xWorld) spawn(a *xActor, what string, f func(ctx context.Context) er
 func (w *c17xWorld) run() {
 	tp, r := w.tp, w.r
 	nChans := 1 + tp.Intn(2)
-	steps := 60 + tp.Intn(140)
+	// long enough for a replica-replace (about 30 scheduler picks when nothing else is
+	// chosen) to reach its post-cutover phases while faults are still on in a good share
+	// of the runs; what is left over is finished in the fault-free tail
+	steps := 100 + tp.Intn(300)
 	w.faults = tp.Intn(4) != 0
 	twoExec := tp.Intn(3) != 0
 	w.cfgErr, w.cfgStale, w.cfgLose, w.cfgDup, w.cfgCrash, w.cfgAbort = tp.Intn(3), tp.Intn(3), tp.Intn(3), tp.Intn(2), tp.Intn(3), tp.Intn(3)
@@ -693,8 +787,12 @@ func (w *c17xWorld) run() {
 		w.cfgErr, w.cfgStale, w.cfgLose, w.cfgDup, w.cfgCrash = 0, 0, 0, 0, 0
 	}
 	w.cfgWriter = tp.Intn(2)
+	w.cfgReload = tp.Intn(3)
+	if !w.faults {
+		w.cfgReload = 0
+	}
 	memTable := []int{256 << 10, 64 << 10}[tp.Intn(2)]
-	r.Config = map[string]any{"leader_writes": w.cfgWriter, "channels": nChans, "steps": steps, "faults": w.faults, "two_executors": twoExec, "rt_error": w.cfgErr, "rt_late": w.cfgStale,
+	r.Config = map[string]any{"leader_writes": w.cfgWriter, "runtime_reload": w.cfgReload, "channels": nChans, "steps": steps, "faults": w.faults, "two_executors": twoExec, "rt_error": w.cfgErr, "rt_late": w.cfgStale,
 		"proposal_lost": w.cfgLose, "proposal_dup": w.cfgDup, "crash": w.cfgCrash, "operator_abort": w.cfgAbort, "memtable": memTable}
 	hashSlots := []uint16{3, 7}
 	ids := []string{"chA", "chB"}
@@ -728,6 +826,7 @@ func (w *c17xWorld) run() {
 			w.applyViewNow(c.id, node, nm)
 			w.simNode(c.id, node).leo = uint64(3 + tp.Intn(4))
 		}
+		w.noteMeta(c)
 		r.Logf("init %s %s", c.id, rtString(&nm))
 	}
 	w.actors = append(w.actors, w.newActor(0, "x11", 11, false))
@@ -778,7 +877,20 @@ func (w *c17xWorld) run() {
 		if len(dead) > 0 {
 			wRestart = 3
 		}
-		switch tp.Weighted([]int{wRel, wRun, wClock, wSync, wOp, wCrash, wRestart, w.cfgWriter}) {
+		// an eviction matters when it falls between an acknowledged apply-meta and the
+		// probe that follows it; elsewhere it only makes runtime calls fail, so it is kept
+		// rare there (the executors must still get somewhere while faults are on)
+		wReload := 0
+		if w.cfgReload > 0 && step%4 == 0 {
+			wReload = 1
+		}
+		for _, p := range pending {
+			if p.Info.(*xCall).kind == "probe" {
+				wReload = 3 * w.cfgReload
+				break
+			}
+		}
+		switch tp.Weighted([]int{wRel, wRun, wClock, wSync, wOp, wCrash, wRestart, w.cfgWriter, wReload}) {
 		case 0:
 			w.release(pending[tp.PickOldestBiased(len(pending))], false)
 		case 1:
@@ -809,6 +921,8 @@ func (w *c17xWorld) run() {
 			r.Logf("t=%d %s restarts as a new executor instance", w.nowMS, a.name)
 		case 7:
 			w.channelLeaderWrite()
+		case 8:
+			w.runtimeReload()
 		}
 	}
 	if r.Failed() || r.InfraErr != "" {
@@ -867,6 +981,13 @@ func (w *c17xWorld) release(p *simkit.Parked, healthy bool) {
 		r.Logf("  %s: %s => %s", x.actor.name, x.desc, map[int]string{xOK: "answered", xFail: "failed", xStale: "late answer"}[d])
 	case "drain":
 		if d == xOK {
+			// Replication runs in milliseconds, the executor ticks in seconds: a fenced
+			// leader has normally replicated its tail by the time it is asked to drain.
+			// The other case (value 0: followers still behind, "not drained", which blocks
+			// the task for good) stays reachable.
+			if !healthy && tp.Intn(4) != 0 {
+				w.replicate(x.drain.ChannelID.ID)
+			}
 			x.drained = w.drainNow(x.node, x.drain)
 		}
 		r.Logf("  %s: %s => %s drained=%v", x.actor.name, x.desc, map[int]string{xOK: "answered", xFail: "failed", xStale: "late answer"}[d], x.drained.Drained)
@@ -973,6 +1094,7 @@ func (w *c17xWorld) channelLeaderWrite() {
 		r.FailSig("foreign-fence-changed", "by-ordinary-writer", fmt.Sprintf("a same-epoch write (%s) changed the write fence %s -> %s", what, preFence, fenceOf(post)), nil)
 		return
 	}
+	w.noteMeta(c)
 	w.compareState(fmt.Sprintf("after index %d", w.index))
 }
 
@@ -1020,7 +1142,14 @@ func (w *c17xWorld) operatorStep() {
 	c := w.chans[tp.Intn(len(w.chans))]
 	id := ch.ChannelID{ID: c.id, Type: uint8(c.typ)}
 	if t := w.activeTask(c); t != nil {
-		if w.cfgAbort == 0 || !tp.Chance(w.cfgAbort, 4) {
+		// an abort is most telling when it races with the cutover (fence set, commit /
+		// promote in flight or accepted); an operator that keeps aborting young tasks only
+		// prevents every task from getting there, so those aborts are rarer
+		den := 16
+		if t.FenceVersion > 0 || postCutoverPhase(t.Phase) {
+			den = 4
+		}
+		if w.cfgAbort == 0 || !tp.Chance(w.cfgAbort, den) {
 			return
 		}
 		task := *t
